@@ -21,7 +21,7 @@ func init() {
 			"alphabet of ~60 operations (field/index store, del, lookups, has, len, print, equality against permuted/changed literals, range loops whose body prints, deletes the " +
 			"current/another key, inserts, overwrites, deletes-and-reinserts, operations through an alias variable, a function parameter and an any). Every transition is replayed on the " +
 			"real evaluator as program = shortest history + operation and compared with the reference ordered dictionary; plus all un-deduplicated histories to depth 3 (quick) / 4 " +
-			"(thorough) from the empty map. Non-trivial = the transition's source state is non-empty or the operation inserts.",
+			"(thorough) from the empty map; plus, for every transition, the state's literal evaluated a second time (function called twice) after the operation. Non-trivial = the transition's source state is non-empty or the operation inserts.",
 		Assumptions: []string{"canonical state key = printed map (order and values); the only hidden implementation state is the backing array of the order slice, which the raw histories cover for <= 3 keys"},
 		TrustedBase: []string{"reference ordered dictionary ref.Map (key slice + lookup table) and reference interpreter"},
 		Run:         runC12,
@@ -107,6 +107,10 @@ func c12Ops() []mapOp {
 		})
 		add("range-insert "+k, func(mapState, string) []pt.Stmt {
 			return rangeOver(pt.Print(pt.S("visit"), pt.V("k")), pt.Assign{Target: pt.Dot{X: m, Key: k}, X: pt.N(1)})
+		})
+		add("range-novar-del "+k, func(mapState, string) []pt.Stmt {
+			// a range without a loop variable runs once per key that is still present when its turn comes
+			return []pt.Stmt{pt.For{Range: []pt.Expr{m}, Body: []pt.Stmt{pt.Print(pt.S("turn")), pt.CallStmt{C: pt.C("del", m, pt.S(k))}}}}
 		})
 		add("alias-set "+k, func(_ mapState, uid string) []pt.Stmt {
 			return []pt.Stmt{pt.InferDecl{Name: "n" + uid, X: m}, pt.Assign{Target: pt.Dot{X: pt.V("n" + uid), Key: k}, X: pt.N(2)}}
@@ -280,6 +284,19 @@ func runC12(w *fw.Worker) {
 				w.Internal("C12: reference reached a state outside the enumerated state space: " + next.String())
 			}
 			exec("transition", len(s.keys) > 0 || strings.Contains(op.name, "="), stmts)
+			if len(s.keys) > 0 {
+				// the same literal evaluated again (a function body run twice) yields the literal's value, whatever happened to the first map
+				var ord []int
+				for i := range s.keys {
+					ord = append(ord, i)
+				}
+				mk := pt.Func{Name: "mk", Ret: tNumMap, Body: []pt.Stmt{pt.Return{X: s.lit(ord)}}}
+				re := []pt.Stmt{mk, pt.InferDecl{Name: "m", X: pt.C("mk")}}
+				re = append(re, op.build(s, "1")...)
+				re = append(re, pt.InferDecl{Name: "fresh", X: pt.C("mk")}, pt.Print(pt.S("fresh"), pt.V("fresh"), pt.C("len", pt.V("fresh"))),
+					pt.For{Var: "fk", Range: []pt.Expr{pt.V("fresh")}, Body: []pt.Stmt{pt.Print(pt.S("fk"), pt.V("fk"))}})
+				exec("literal-reeval", true, re)
+			}
 		}
 	}
 	// un-deduplicated histories from the empty map (state-changing and observing operations alike)
